@@ -65,37 +65,65 @@ fn plain_net(id: u32) -> packet::bgp::Ipv4Net {
         mask: 24,
     }
 }
-/// prefix (kind, id): kind 0 = IPv4 unicast 10.<id>.0.0/24, kind 1 = VPNv4 with
-/// inner prefix 10.<100+id>.0.0/24 (so that the VRF-local form, printed as kind 2,
-/// never collides with a kind-0 prefix).
+/// prefix (kind, id):
+///   kind 0  IPv4 unicast 10.<id>.0.0/24 (id < 100)
+///   kind 1  VPNv4, id = 10*rd + inner: RD 65000:<1+rd>, inner prefix 10.<100+inner>.0.0/24;
+///           its VRF-local form (what reaches a VRF table) is printed as kind 2, id inner
+///   kind 3  IPv6 unicast 2001:db8:<id>::/48 (id < 100)
+///   kind 4  VPNv6, id = 10*rd + inner, inner prefix 2001:db8:<100+inner>::/48; VRF-local form kind 5
+fn plain_net6(id: u32) -> packet::bgp::Ipv6Net {
+    packet::bgp::Ipv6Net {
+        addr: std::net::Ipv6Addr::new(0x2001, 0xdb8, id as u16, 0, 0, 0, 0, 0),
+        mask: 48,
+    }
+}
 fn mk_net(kind: u32, id: u32) -> (Family, packet::Nlri) {
-    if kind == 0 {
-        (Family::IPV4, packet::Nlri::V4(plain_net(id)))
-    } else {
-        let prefix = plain_net(100 + id);
-        let rd = packet::rd::RouteDistinguisher::TwoOctetAs {
-            admin: 65000,
-            assigned: 1,
-        };
-        let labels = packet::mpls::MplsLabelStack::new(vec![packet::mpls::MplsLabel::new(16)]);
-        (
+    let rd = packet::rd::RouteDistinguisher::TwoOctetAs {
+        admin: 65000,
+        assigned: 1 + id / 10,
+    };
+    let labels = || packet::mpls::MplsLabelStack::new(vec![packet::mpls::MplsLabel::new(16)]);
+    match kind {
+        0 => (Family::IPV4, packet::Nlri::V4(plain_net(id))),
+        1 => (
             Family::IPV4_VPN,
-            packet::Nlri::VpnV4(packet::vpn::VpnV4Nlri { prefix, rd, labels }),
-        )
+            packet::Nlri::VpnV4(packet::vpn::VpnV4Nlri {
+                prefix: plain_net(100 + id % 10),
+                rd,
+                labels: labels(),
+            }),
+        ),
+        3 => (Family::IPV6, packet::Nlri::V6(plain_net6(id))),
+        _ => (
+            Family::IPV6_VPN,
+            packet::Nlri::VpnV6(packet::vpn::VpnV6Nlri {
+                prefix: plain_net6(100 + id % 10),
+                rd,
+                labels: labels(),
+            }),
+        ),
+    }
+}
+fn rd_index(rd: &packet::rd::RouteDistinguisher) -> i128 {
+    match rd {
+        packet::rd::RouteDistinguisher::TwoOctetAs { assigned, .. } => *assigned as i128 - 1,
+        _ => -1,
     }
 }
 fn net_val(n: &packet::Nlri) -> Val {
+    let v = |k: i128, id: i128| Val::L(vec![Val::I(k), Val::I(id)]);
     match n {
         packet::Nlri::V4(p) => {
             let b = p.addr.octets()[1] as i128;
-            if b >= 100 {
-                Val::L(vec![Val::I(2), Val::I(b - 100)])
-            } else {
-                Val::L(vec![Val::I(0), Val::I(b)])
-            }
+            if b >= 100 { v(2, b - 100) } else { v(0, b) }
         }
-        packet::Nlri::VpnV4(v) => Val::L(vec![Val::I(1), Val::I(v.prefix.addr.octets()[1] as i128 - 100)]),
-        _ => Val::L(vec![Val::I(9), Val::I(0)]),
+        packet::Nlri::VpnV4(x) => v(1, 10 * rd_index(&x.rd) + x.prefix.addr.octets()[1] as i128 - 100),
+        packet::Nlri::V6(p) => {
+            let b = p.addr.segments()[2] as i128;
+            if b >= 100 { v(5, b - 100) } else { v(3, b) }
+        }
+        packet::Nlri::VpnV6(x) => v(4, 10 * rd_index(&x.rd) + x.prefix.addr.segments()[2] as i128 - 100),
+        _ => v(9, 0),
     }
 }
 fn rt_bytes(r: u32) -> [u8; 8] {
@@ -112,6 +140,20 @@ fn as_path(len: u8) -> packet::Attribute {
 /// separated by LOCAL_PREF, AS_PATH length and ORIGIN in turn, so that the
 /// abstract "lower pref wins" of the model runs through decision steps 2-4.
 fn mk_attrs(pref: u32, llgrc: bool, nollgr: bool, rts: &[u32]) -> Arc<Vec<packet::Attribute>> {
+    mk_attrs_rr(pref, llgrc, nollgr, rts, 0, None)
+}
+
+/// as mk_attrs, plus the route-reflection attributes: a CLUSTER_LIST of `clen`
+/// entries and an ORIGINATOR_ID 1.1.1.<oid> (router ids are 1.1.1.<rid>, so the
+/// model's small numbers order the same way)
+fn mk_attrs_rr(
+    pref: u32,
+    llgrc: bool,
+    nollgr: bool,
+    rts: &[u32],
+    clen: u32,
+    oid: Option<u32>,
+) -> Arc<Vec<packet::Attribute>> {
     let (lp, plen, origin) = match pref {
         0 => (200u32, 2u8, 0u32),
         1 => (100, 1, 0),
@@ -141,6 +183,16 @@ fn mk_attrs(pref: u32, llgrc: bool, nollgr: bool, rts: &[u32]) -> Arc<Vec<packet
             data.extend_from_slice(&rt_bytes(*r));
         }
         v.push(packet::Attribute::new_with_bin(packet::Attribute::EXTENDED_COMMUNITY, data).unwrap());
+    }
+    if clen > 0 {
+        let mut data = Vec::new();
+        for i in 0..clen {
+            data.extend_from_slice(&(0x0a00_0000u32 + i).to_be_bytes());
+        }
+        v.push(packet::Attribute::new_with_bin(packet::Attribute::CLUSTER_LIST, data).unwrap());
+    }
+    if let Some(o) = oid {
+        v.push(packet::Attribute::new_with_value(packet::Attribute::ORIGINATOR_ID, if o == 0 { 0 } else { 0x0101_0100 + o }).unwrap());
     }
     Arc::new(v)
 }
@@ -216,7 +268,7 @@ fn nh_val(n: Option<bgp::Nexthop>) -> Val {
     Val::opt(n.map(nh_form))
 }
 
-const FAMS: [Family; 2] = [Family::IPV4, Family::IPV4_VPN];
+const FAMS: [Family; 4] = [Family::IPV4, Family::IPV4_VPN, Family::IPV6, Family::IPV6_VPN];
 
 /// Adj-RIB-In and Loc-RIB views of the whole table, canonical order.
 ///   [ [net, [[peer,sess,pid,nh,tok,unfiltered]...] (rank order),
@@ -353,7 +405,12 @@ fn mk_world(cfg: &Val, shards: usize) -> World {
     };
     for a in cfg.at(1).list() {
         let rts: Vec<u32> = a.at(4).list().iter().map(|r| r.u32()).collect();
-        w.attrs.push((a.at(0).u32(), mk_attrs(a.at(1).u32(), a.at(2).bool(), a.at(3).bool(), &rts)));
+        let clen = if a.list().len() > 5 { a.at(5).u32() } else { 0 };
+        let oid = if a.list().len() > 6 { a.at(6).list().first().map(|x| x.u32()) } else { None };
+        w.attrs.push((
+            a.at(0).u32(),
+            mk_attrs_rr(a.at(1).u32(), a.at(2).bool(), a.at(3).bool(), &rts, clen, oid),
+        ));
     }
     let mut vrfs: FnvHashMap<String, table::Vrf> = FnvHashMap::default();
     for (i, v) in cfg.at(2).list().iter().enumerate() {
